@@ -88,7 +88,10 @@ def eval_structure(S, crys, chem, ops, expected, what):
             bad.append(("stars", "%s: state set not closed under the space group" % what, {"outside": outside[:5]}))
         mine = set(frozenset(sts[x] for x in st) for st in stars)
         if mine != set(orbs):
-            bad.append(("stars", "%s: stars are not the orbits (%d stars, %d orbits)" % (what, len(mine), len(orbs)), {}))
+            # stable class: noisy positions (loosened crystal threshold) and a code path that does not use the crystal's threshold
+            noisy = crys.threshold > 1e-7 and what in ("sum", "diffgenerate", "history")
+            bad.append(("noisy-default-threshold" if noisy else "stars",
+                        "%s: stars are not the orbits (%d stars, %d orbits)" % (what, len(mine), len(orbs)), {}))
         idx = [int(x) for x in S.index]
         if len(idx) != len(sts) or any(idx[x] != k for k, st in enumerate(stars) for x in st):
             bad.append(("index", "%s: index[x] is not the star containing x" % what, {}))
@@ -230,7 +233,7 @@ def history_tier(ck, violation, label, crys, chem, jn, cut, jumps, ops, nsites, 
                 if S.Nshells != N: bad.append(("nshells", "Nshells after the history is %r, expected %d" % (S.Nshells, N), {}))
                 qs, bad2 = full_lookup_check(S, crys, chem, sts, universe, rng, ck.n(120, 400))
                 for key, msg, detail in bad + bad2:
-                    violation("history-" + key, msg, step, detail)
+                    violation(key if key == "noisy-default-threshold" else "history-" + key, msg, step, detail)
                 # copies taken earlier are independent objects: unchanged and still consistent
                 for (C, csts, cN, co) in copies:
                     if [sc.ps_of(x) for x in C.states] != csts or C.Nshells != cN:
@@ -295,6 +298,13 @@ def run(ck):
         for label, crys, chem in fixed_sub:
             sh = gen.shells(crys, chem)
             yield label + ":shortest", crys, chem, sh[0] + 1e-4, crys.jumpnetwork(chem, sh[0] + 1e-4)
+        # noisy positions + loosened symmetry threshold (relaxed coordinates): stars must be complete orbits under crys.G with
+        # the crystal's own tolerance
+        for nm in (("hcp", rng.choice(["honeycomb", "polar", "fcc"])) if ck.quick else ("hcp", "honeycomb", "polar", "fcc", "hcp-oct-tet")):
+            r = sc.noisy_crystal(nm, rng)
+            if r is None: continue
+            cutn = gen.shells(r[3], r[2])[0] + 1e-2
+            yield r[0], r[1], r[2], cutn, r[1].jumpnetwork(r[2], cutn)
         # low-symmetry multi-site crystals: completeness of the shell construction at N = 3 (a state that needs three jumps
         # can be closer to the solute than every two-jump state it is reached from)
         c_, chem_, cut_ = sc.lowsym_demo()
@@ -449,7 +459,7 @@ def run(ck):
                         violation("exception", "StarSet sum raised %s: %s" % (type(e).__name__, e), info)
                     continue
                 for key, msg, detail in bad + bad2:
-                    violation("add-" + key, msg, info, detail)
+                    violation(key if key == "noisy-default-threshold" else "add-" + key, msg, info, detail)
                 ck.case(key=(label, repr(crys), ckey(cut), N1, o1, N2, o2, inplace, "add"), nontrivial=len(stars) >= 2,
                         kind="add:%dD-%d+%d" % (crys.dim, N1, N2),
                         sample={"op": "add", "crystal": label, "N1": N1, "o1": o1, "N2": N2, "o2": o2, "Nstates": len(sts)}
@@ -485,7 +495,7 @@ def run(ck):
             except Exception as e:
                 violation("exception", "diffgenerate raised %s: %s" % (type(e).__name__, e), info); continue
             for key, msg, detail in bad:
-                violation("diff-" + key, msg, info, detail)
+                violation(key if key == "noisy-default-threshold" else "diff-" + key, msg, info, detail)
             ck.case(key=(label, repr(crys), ckey(cut), N1, o1, N2, o2, "diff"), nontrivial=len(stars) >= 2,
                     kind="diff:%dD-%d,%d" % (crys.dim, N1, N2))
             if len(sts) <= max_case_states and spent + len(sts) <= coq_budget_states:
@@ -512,8 +522,10 @@ def run(ck):
         ck.broken_proof = "correspondence Model/Stars.run_starset: %s" % e
     for (kind, info, meaning, w_), c in zip(meta, codes):
         if c != 0:
-            ck.violation("model correspondence (%s): %s" % (kind, meaning.get(c, c)), dict(info, model_code=c),
-                         key="c24-model-%s-%d" % (kind, c))
+            key = "c24-model-%s-%d" % (kind, c)
+            if c == 4 and kind in ("hist", "diffstars") and str(info.get("label", "")).startswith("noisy-"):
+                key = "c24-noisy-default-threshold"
+            ck.violation("model correspondence (%s): %s" % (kind, meaning.get(c, c)), dict(info, model_code=c), key=key)
     ck.extra["model_cases"] = len(codes)
     ck.extra["model_states_checked"] = spent
     ck.extra["skipped"] = skipped
